@@ -34,6 +34,9 @@ H = "filters::network::NetworkFilterMaskHelper::"
 def check(run):
     for cfg in run.cfgs("A", "B"):
         F = run.facts(cfg)
+        from analysis.guards import rule_visits_all as _rva
+        run.guard("C01.8.every-candidate", cfg, lambda: _rva(run, "C01.8.every-candidate", F, cfg, ['network_filter_list::NetworkFilterList::check', 'network_filter_list::NetworkFilterList::check_all', 'network_filter_list::NetworkFilterList::new', 'network_filter_list::NetworkFilterList::add_filter'],
+                  'Every rule is filed, and every rule of every bucket named by a request token is tried', minimum=4))
         run.guard("C01.1.token-source", cfg, lambda: rule_store(run, F, cfg))
         run.guard("C01.1.token-source", cfg + "/probe", lambda: rule_probe(run, F, cfg))
         run.guard("C01.3.exhaustive-probing", cfg, lambda: rule_exhaustive(run, F, cfg))
@@ -60,6 +63,9 @@ def check(run):
         from . import C07 as _C07
         b7 = run.borrow("C07", why="a rule that matches (and passes the tag gate) must be returned / collected by the list probe")
         run.guard("C01.via.C07.2.gate-shape", cfg, lambda: _C07.rule_gate_shape(b7, F, cfg))
+        from . import C08 as _C08
+        b8 = run.borrow("C08", only=r"NetworkFilterV0", why="engines are shipped serialized: the engine loaded from the bytes of engine(L) must still be engine(L), rule by rule")
+        run.guard("C01.via.C08.2.positional", cfg, lambda: _C08.rule_positional(b8, F, cfg))
 
 
 def rule_store(run, F, cfg):
@@ -296,6 +302,12 @@ def rule_boundary(run, F, cfg):
     mx = [b for b, i, s in t.statements() if s["k"] == "assign" and s["rv"]["k"] == "binop" and s["rv"]["op"] in ("Ge", "Gt", "Lt", "Le")
           and "TOKENS_MAX" in t.expr_rvalue(s["rv"], 2)]
     run.ob("C01.4.token-boundary", "token-limit", bool(mx), "the tokenizer stops at TOKENS_MAX tokens (the property's < 127 token premise)", config=cfg)
+    cap = F.const_int("utils::TOKENS_MAX")
+    run.ob("C01.4.token-boundary", "token-limit-value", cap >= 127,
+           f"the request tokenizer keeps at least the first 127 tokens of a URL (utils::TOKENS_MAX = {cap}): the property "
+           f"holds for every URL with fewer than 127 tokens only if none of those tokens is cut off, because a rule is "
+           f"filed under ONE of its tokens and found only if that token is among the request's",
+           site=F.consts["utils::TOKENS_MAX"]["span"], config=cfg)
 
 
 def _resolve(val, d):
@@ -606,3 +618,26 @@ def rule_identity(run, F, cfg):
     run.touched(ins)
     run.ob("C01.7.rule-identity", "insert_dup-compares-rules", bool(ins.calls()),
            "insert_dup drops a rule only if an equal rule (same id) is already in the bucket", config=cfg)
+    # ... and "equal" means the same rule LINE: the ordering / equality insert_dup and Vec::contains use reads the
+    # stored `id` of both operands. Any coarser identity (the option-independent get_id() ignores `$tag=`) makes
+    # insert_dup drop the second of two rules that differ only in what the coarser identity leaves out.
+    for tr, mname in (("std::cmp::PartialOrd", "partial_cmp"), ("std::cmp::PartialEq", "eq")):
+        c = F.fns.get(f"<filters::network::NetworkFilter as {tr}>::{mname}")
+        if c is None:
+            run.ob("C01.7.rule-identity", f"dedup-order:{mname}", False,
+                   f"<NetworkFilter as {tr}>::{mname} not found", status="UNDISCHARGED", config=cfg)
+            continue
+        run.touched(c)
+        reads = set()
+        for b, i, st in c.statements():
+            if st["k"] == "assign":
+                reads.add(c.expr_rvalue(st["rv"]))
+        for b, t in c.calls():
+            reads.update(c.expr_operand(a) for a in t["args"])
+        local_calls = [strip_generics(t["callee"]) for b, t in c.calls() if t.get("local")]
+        ok = "arg:self.id" in reads and "arg:other.id" in reads
+        run.ob("C01.7.rule-identity", f"dedup-order:{mname}", ok,
+               f"<NetworkFilter as {tr}>::{mname} compares the stored line hash `id` of both filters "
+               f"(crate functions it calls instead: {local_calls}). Two rules that differ only by `$tag=` (or by "
+               f"anything else a derived identity leaves out) are different rules: insert_dup must keep both",
+               site=c.loc(0), config=cfg)
